@@ -18,7 +18,7 @@ META = {
     "timeout": {"quick": 400, "thorough": 900}, "parts": {"quick": 16, "thorough": 16}},
   "h_hist2_full": {"kind": "G", "functions": _FUNCS, "tiers": ["thorough"],
     "bounds": _B + "every history of 2 steps over the full alphabet incl. disconnect(instance) and rename onto every kind of target",
-    "timeout": {"thorough": 1200}, "parts": {"thorough": 16}},
+    "timeout": {"thorough": 900}, "parts": {"thorough": 16}},
  },
 }
 
